@@ -404,6 +404,21 @@ def parse_cases(ctx: core.Ctx, rng):
                 if filler == " " and n == 2000:
                     yield {"kind": "parse", "source": opener + filler * n + "b", "mode": "lax"}
                     yield {"kind": "parse", "source": ("x" + opener + filler * 200) * 10, "mode": "strict"}
+    # the same one level down: inside an expression, a character that opens something (a group, a range, a bracket, a string, a filter)
+    # followed by a long run of ordinary expression text that never closes it; these are the shapes on which an expression-tokenizer rule
+    # with a lookahead or a nested quantifier can backtrack
+    for head, tail in (("{{ ", " }}"), ("{% if ", " %}x{% endif %}"), ("{% assign x = ", " %}"), ("{% for i in ", " %}x{% endfor %}"), ("{% echo ", " %}"),
+                       ("{% liquid\n echo ", "\n%}"), ("{% case ", " %}{% endcase %}"), ("{% cycle ", " %}"), ("{% include ", " %}")):
+        for xo in ("(", "((", "(a", "(1.", "(1. .", "[", "a[", "a[b", "a.", "'", '"', "a | ", "a | f: ", "a | f: b,", "(a and", "not ", "a == ", "a.b[", "('..' "):
+            for xf in ("a", "a ", "a.", ".", " ", "1", "a,", "-", "a and ", "_", "1.", "a:", "a b.c ", "a_b and c.d > 1 "):
+                k += 1
+                if k % ctx.nshards != ctx.shard:
+                    continue
+                n = (40, 400)[k % 2]
+                run = (xf * n)[: n * 2]
+                yield {"kind": "parse", "source": head + xo + run + tail, "mode": "strict" if k % 2 else "lax"}
+                if k % 5 == 0:
+                    yield {"kind": "parse", "source": head + xo + run, "mode": "lax"}
     # every tag name with every malformed expression fragment, in the tolerant modes (where a parser that reports an error goes on, and
     # must still get somewhere), and unterminated blocks with stray inner tags
     for tname in MF.TAG_NAMES:
